@@ -157,7 +157,9 @@ EXTRA = {
            "connection without waiting for another event (clause 8).",
     "C10": " The glue to the in-flight limiter (impl SizedRequest for Decoded) is modelled (Model/Sized.v, engines "
            "sized3/sized5): a PUBLISH with an incomplete payload is flagged whatever piece came with the header.",
-    "C12": " The limiter's view of decoded items (what wf_stream assumes) is tied to the codec by engines sized3/sized5; "
+    "C12": " Whole servers when several frames arrive in ONE read: engines inb3b/inb5b (Model/InboundBurst.v, "
+           "Props/C12burst.v: the same server model plus a held write), scans P19 (v3: never more handlers at once than "
+           "max_receive), P20 (everything handled once the handlers finish). The limiter's view of decoded items (what wf_stream assumes) is tied to the codec by engines sized3/sized5; "
            "the client role of the receive maximum is covered by the cli5 cases.",
     "C13": " The ControlService wrapper (engines ctlwrap3/ctlwrap5, Model/CtlWrap.v, Props/C13ctl.v): the flag is the "
            "last notification ISSUED, whatever the order in which the application's control calls complete."
